@@ -1875,7 +1875,8 @@ class PyCdlib:
         with inode.InodeOpenData(ino, self.logical_block_size) as (data_fp, data_len):
             data_fp.seek(8, os.SEEK_CUR)
             bi_table = eltorito.EltoritoBootInfoTable()
-            if bi_table.parse(self.pvd, data_fp.read(eltorito.EltoritoBootInfoTable.header_length()), ino):
+            header = data_fp.read(eltorito.EltoritoBootInfoTable.header_length())
+            if len(header) == eltorito.EltoritoBootInfoTable.header_length() and bi_table.parse(self.pvd, header, ino):
                 data_fp.seek(-24, os.SEEK_CUR)
                 # Do a final check to make sure the checksum matches.
                 csum = self._calculate_eltorito_boot_info_table_csum(data_fp,
